@@ -3,7 +3,9 @@ package c05
 
 import (
 	"fmt"
+	"github.com/google/uuid"
 	"io"
+	"math/big"
 	"os"
 	"reflect"
 	"regexp"
@@ -264,10 +266,33 @@ var streamTypes = []reflect.Type{
 	reflect.TypeOf([]int64(nil)), reflect.TypeOf([]float64(nil)), reflect.TypeOf([]interface{}(nil)), reflect.TypeOf(map[string]interface{}(nil)),
 	reflect.TypeOf(uni.Plain{}), reflect.TypeOf([]uni.Plain(nil)), reflect.TypeOf(uni.WithTime{}), reflect.TypeOf([]uni.WithTime(nil)), reflect.TypeOf(uni.AllScalars{}),
 	reflect.TypeOf(uni.AllSlices{}), reflect.TypeOf(uni.Tree{}), reflect.TypeOf(uni.WithIface{}), reflect.TypeOf([]time.Time(nil)), reflect.TypeOf(uni.Tagged{}),
-	reflect.TypeOf(map[int][]string(nil)), reflect.TypeOf(uni.TIface).Elem(),
+	reflect.TypeOf(map[int][]string(nil)), reflect.TypeOf([4]byte{}), reflect.TypeOf([16]byte{}), reflect.TypeOf([3][16]byte{}), reflect.TypeOf([]([16]byte)(nil)), reflect.TypeOf(uuid.UUID{}), reflect.TypeOf([]uuid.UUID(nil)),
+	reflect.TypeOf(struct {
+		A [16]byte
+		U uuid.UUID
+		S string
+	}{}), reflect.TypeOf(map[string][16]byte(nil)), reflect.TypeOf([]*big.Int(nil)), reflect.TypeOf([]*big.Float(nil)), reflect.TypeOf([]complex128(nil)), reflect.TypeOf([3]string{}),
+	reflect.TypeOf(uni.AllPtrs{}), reflect.TypeOf(uni.TIface).Elem(),
 }
 
 func init() { streamTypes[len(streamTypes)-1] = uni.TIface }
+
+// crossDest: destinations a stream of another type may be decoded into (the slice-versus-reader comparison does
+// not need to know what the conversion should yield, only that both ways agree)
+var crossDest = map[reflect.Type][]reflect.Type{
+	reflect.TypeOf([16]byte{}):        {reflect.TypeOf(uuid.UUID{}), reflect.TypeOf([]byte(nil)), reflect.TypeOf(""), uni.TIface, reflect.TypeOf([4]byte{})},
+	reflect.TypeOf([]([16]byte)(nil)): {reflect.TypeOf([]uuid.UUID(nil)), reflect.TypeOf([][]byte(nil)), reflect.TypeOf([]string(nil)), reflect.TypeOf([]interface{}(nil))},
+	reflect.TypeOf([]byte(nil)):       {reflect.TypeOf([16]byte{}), reflect.TypeOf([4]byte{}), reflect.TypeOf(""), reflect.TypeOf(uuid.UUID{})},
+	reflect.TypeOf([][]byte(nil)):     {reflect.TypeOf([][4]byte(nil)), reflect.TypeOf([]string(nil)), reflect.TypeOf([]uuid.UUID(nil))},
+	reflect.TypeOf(""):                {reflect.TypeOf([]byte(nil)), reflect.TypeOf([16]byte{}), uni.TIface},
+	reflect.TypeOf([]string(nil)):     {reflect.TypeOf([][]byte(nil)), reflect.TypeOf([]interface{}(nil)), reflect.TypeOf([3]string{})},
+	reflect.TypeOf(uuid.UUID{}):       {reflect.TypeOf(""), reflect.TypeOf([]byte(nil)), uni.TIface},
+	reflect.TypeOf([]uuid.UUID(nil)):  {reflect.TypeOf([]string(nil)), reflect.TypeOf([]interface{}(nil))},
+	reflect.TypeOf([]int64(nil)):      {reflect.TypeOf([]float64(nil)), reflect.TypeOf([]string(nil)), reflect.TypeOf([]*big.Int(nil)), reflect.TypeOf([]interface{}(nil))},
+	reflect.TypeOf([]float64(nil)):    {reflect.TypeOf([]string(nil)), reflect.TypeOf([]*big.Float(nil)), reflect.TypeOf([]interface{}(nil))},
+	reflect.TypeOf(uni.Plain{}):       {reflect.TypeOf(map[string]interface{}(nil)), uni.TIface},
+	reflect.TypeOf([]uni.Plain(nil)):  {reflect.TypeOf([]map[string]interface{}(nil)), reflect.TypeOf([]interface{}(nil))},
+}
 
 func genStream(rt *rapid.T) (reflect.Type, []byte, bool) {
 	t := rapid.SampledFrom(streamTypes).Draw(rt, "type")
@@ -280,6 +305,9 @@ func genStream(rt *rapid.T) (reflect.Type, []byte, bool) {
 	data, err := hio.Formatter{Simple: simple}.Marshal(v.Interface())
 	if err != nil {
 		rt.Skip("value cannot be encoded: " + err.Error())
+	}
+	if alts := crossDest[t]; len(alts) > 0 && rapid.IntRange(0, 2).Draw(rt, "cross") == 0 {
+		t = rapid.SampledFrom(alts).Draw(rt, "dest")
 	}
 	return t, data, simple
 }
